@@ -52,6 +52,34 @@ def needs_zero_width(pattern: str, module: str) -> bool:
     return not m1(pp, mm, True)
 
 
+def zero_width_stars(pattern: str, module: str) -> str:
+    """Which non-trailing stars must stand for zero components for the pattern to match: '', 'leading', 'inner' or
+    'leading+inner' (the minimal requirement: a kind is named only if no match exists without it)."""
+    pp, mm = pattern.split("."), module.split(".")
+    if not comp_match(pp, mm) or not needs_zero_width(pattern, module):
+        return ""
+
+    def m(pat: list[str], mod: list[str], idx: int, lead0: bool, inner0: bool) -> bool:
+        if not pat:
+            return not mod
+        if pat[0] == "*":
+            trailing = len(pat) == 1
+            if trailing:
+                lo = 0
+            elif idx == 0:
+                lo = 0 if lead0 else 1
+            else:
+                lo = 0 if inner0 else 1
+            return any(m(pat[1:], mod[i:], idx + 1, lead0, inner0) for i in range(lo, len(mod) + 1))
+        return bool(mod) and mod[0] == pat[0] and m(pat[1:], mod[1:], idx + 1, lead0, inner0)
+
+    if m(pp, mm, 0, True, False):
+        return "leading"
+    if m(pp, mm, 0, False, True):
+        return "inner"
+    return "leading+inner"
+
+
 def shape(pattern: str) -> str:
     """Abstract form of a pattern (used in mechanism keys; never the concrete names)."""
     parts = pattern.split(".")
